@@ -428,7 +428,14 @@ func (em *emitter) assignValuesToAddresses(addresses []address, values []ast.Exp
 		types := make([]reflect.Type, len(values))
 		ks := make([]bool, len(values))
 		for i := range values {
-			types[i] = em.typ(values[i])
+			// As for a single assignment, the value is evaluated with the
+			// type of its target: the address then reads it from a register
+			// of that type (an int constant assigned to an interface
+			// variable would otherwise be left in an int register).
+			types[i] = addresses[i].targetType()
+			if types[i] == nil {
+				types[i] = em.typ(values[i])
+			}
 			regs[i] = em.fb.newRegister(types[i].Kind())
 			em.emitExprR(values[i], types[i], regs[i])
 		}
